@@ -113,6 +113,10 @@ TREES = [
     ("grid-expand-empty", lambda: (lambda g: (g.add_column(), g.add_column(), g.add_row("", ""), g)[3])(Table.grid(expand=True)), 2),
     ("table-minwidth", lambda: _table(min_width=30, cols=3), 4 + 3 * 4),
     ("columns-fixed-width", lambda: Columns(["a", "bb", "ccc 中"], width=10), 10),
+    ("table-no-columns-expand", lambda: Table(expand=True), 2),
+    ("table-no-columns-title", lambda: Table(title="empty", box=box.ASCII), 2),
+    ("columns-empty", lambda: Columns([]), 1),
+    ("tree-leaf", lambda: Tree("only"), 4),
     ("table-ratio-expand", lambda: (lambda t: (t.add_column("k", ratio=1), t.add_column("v", ratio=30), t.add_row("kabcde", ASCII), t)[3])(
         Table(expand=True, box=box.ASCII2)), 3 + 2 * 3),
 ]
